@@ -741,6 +741,71 @@ fn mixed_sequences(report: &Report, depth: usize) {
     report.section(json!({"part": "raw bits interleaved with Exp-Golomb and Huffman code words (stack with re-import in the middle, and queue)", "items": 7, "max_len": depth, "sequences": total}));
 }
 
+/// A word sink / source whose k-th write fails once (a full disk, a dropped connection) and works again afterwards.
+#[derive(Clone, Debug, Default)]
+struct FailOnce<W> { buf: Vec<W>, writes: usize, k: usize }
+impl<W: Clone> constriction::backends::WriteWords<W> for FailOnce<W> {
+    type WriteError = ();
+    fn write(&mut self, word: W) -> Result<(), ()> {
+        self.writes += 1;
+        if self.writes - 1 == self.k { Err(()) } else { self.buf.push(word); Ok(()) }
+    }
+}
+impl<W: Clone> constriction::backends::ReadWords<W, constriction::Stack> for FailOnce<W> {
+    type ReadError = core::convert::Infallible;
+    fn read(&mut self) -> Result<Option<W>, Self::ReadError> { Ok(self.buf.pop()) }
+}
+
+/// bits ACCEPTED by a coder (write_bit returned Ok) come back in order also when some writes in between were refused
+/// because the sink failed: a refused bit is retried once; nothing that was accepted may be lost or doubled
+fn accepted_bits_survive_sink_errors<W: BitArray>(report: &Report) {
+    let wn = core::any::type_name::<W>();
+    let mut bad: Bad = vec![];
+    let mut n = 0u64;
+    let nbits = 3 * W::BITS + 5;
+    for k in 0..4usize {
+        for pattern in 0..4u32 {
+            let bit = |i: usize| match pattern { 0 => false, 1 => true, 2 => i % 2 == 0, _ => (i * 7 + 3) % 5 < 2 };
+            // queue
+            let mut q = QueueEncoder::<W, FailOnce<W>>::from_compressed(FailOnce { buf: vec![], writes: 0, k });
+            let mut accepted: Vec<bool> = vec![];
+            let mut refused = 0;
+            for i in 0..nbits {
+                n += 1;
+                match q.write_bit(bit(i)) {
+                    Ok(()) => accepted.push(bit(i)),
+                    Err(_) => { refused += 1; if q.write_bit(bit(i)).is_ok() { accepted.push(bit(i)); } else { refused += 1; } }
+                }
+            }
+            if let Ok(sink) = q.into_compressed().or_else(|_| Err(())) {
+                let mut d = QueueDecoder::<W, _>::from_compressed(constriction::backends::Cursor::new_at_write_beginning(sink.buf));
+                let back: Vec<bool> = (0..accepted.len()).map_while(|_| d.read_bit().ok().flatten()).collect();
+                if back != accepted {
+                    let at = back.iter().zip(&accepted).position(|(a, b)| a != b);
+                    bad.push((format!("QueueEncoder | {wn} | bits accepted around a refused write (sink error) do not come back in order"), format!("sink fails at write #{k}, pattern {pattern}, {refused} refused writes: first difference at bit {:?} of {}", at, accepted.len())));
+                }
+            }
+            // stack
+            let mut st = match StackCoder::<W, FailOnce<W>>::from_compressed(FailOnce { buf: vec![], writes: 0, k }) { Ok(s) => s, Err(_) => continue };
+            let mut accepted: Vec<bool> = vec![];
+            for i in 0..nbits {
+                n += 1;
+                match st.write_bit(bit(i)) {
+                    Ok(()) => accepted.push(bit(i)),
+                    Err(_) => { if st.write_bit(bit(i)).is_ok() { accepted.push(bit(i)); } }
+                }
+            }
+            let back: Vec<bool> = (0..accepted.len()).map_while(|_| st.read_bit().ok().flatten()).collect();
+            if back != accepted.iter().rev().cloned().collect::<Vec<_>>() {
+                bad.push((format!("StackCoder | {wn} | bits accepted around a refused write (sink error) do not come back in reverse order"), format!("sink fails at write #{k}, pattern {pattern}")));
+            }
+        }
+    }
+    report.add_transitions(n);
+    report.count("bit_writes_around_sink_errors", n);
+    for (i, d) in bad { report.violation(Violation { identity: i, detail: d, case: json!({"kind": "none"}) }); }
+}
+
 pub fn run(report: &Report) {
     let q = report.tier == Tier::Quick;
     report.bound("StackCoder: all reachable states with at most the listed number of content bits under {write 0, write 1, read, export->re-import, inspect x1/x2} (fixed point); QueueEncoder: every bit string up to the listed length; Exp-Golomb: all u8 pairs (v, v^85), all u16 values, boundary values of u32/u64");
@@ -768,6 +833,8 @@ pub fn run(report: &Report) {
     long_codewords(report);
     wrapper_apis::<u8>(report, if q { 11 } else { 15 });
     wrapper_apis::<u32>(report, if q { 9 } else { 13 });
+    accepted_bits_survive_sink_errors::<u8>(report);
+    accepted_bits_survive_sink_errors::<u32>(report);
     super::pyfront::sweep(report, "views", if q { 3 } else { 4 }, "every constructor that takes compressed words (8) on every word string up to the listed length over 6 words, and every call form that takes symbol / parameter arrays (3 coders x 2 forms) on every message up to length 4: a negative-stride view, a stride-2 view and an interior slice must be read like a contiguous copy", &["symbol."], &[]);
     super::pyfront::sweep(report, "symbol", if q { 3 } else { 4 },
         "Python StackCoder / QueueEncoder / QueueDecoder with every Huffman book of the sweep: every message up to 3 symbols comes back reversed from the exported and re-imported stack and in order from both queue decoders; bit rate == sum of codeword lengths; symbols outside the alphabet are refused without changing the coder",
